@@ -116,15 +116,15 @@ Definition remove_link_pre (g : graph) (name : str) : bool :=
 
 (* The calls whose preservation of WF is PROVED, each with its precondition on the state before the call:
    - enum arguments are members of the enum the API takes (regenerated member lists);
-   - what excludes exactly the signature of a recorded defect: service type other than L2Multisite; a new name that
+   - what excludes exactly the signature of a recorded defect: a new name that
      does not clash in the scope of the renamed element (relabel_ok); remove_link not on a peering link;
    - the documented domain of add_link (distinct interfaces, no service port).
    Every other call (false here) is covered by the wf_b evaluation on the implementation's snapshots only. *)
 Definition op_pre (g : graph) (o : op) : bool :=
   match o with
   | OAddNode _ _ ntype => mem_str ntype enum_node_types
-  | ONodeAddNS _ _ _ nstype => mem_str nstype enum_service_types && negb (str_eqb nstype sL2Multisite)
-  | OAddNS _ _ nstype [] => mem_str nstype enum_service_types && negb (str_eqb nstype sL2Multisite)
+  | ONodeAddNS _ _ _ nstype => mem_str nstype enum_service_types
+  | OAddNS _ _ nstype [] => mem_str nstype enum_service_types
   | OAddLink _ _ ltype ifs => mem_str ltype enum_link_types && add_link_pre g ifs
   | ORemoveLink name => remove_link_pre g name
   | ORename r new => relabel_ok g (ref_id r) (set_name new)
@@ -136,14 +136,19 @@ Definition op_pre (g : graph) (o : op) : bool :=
   | _ => false
   end.
 
+(* the library as it is at /repo HEAD: none of the proposed repairs C07-3..6 *)
+Definition flags_off : flags := mkFlags false false false false.
+(* ... with all of them *)
+Definition flags_on : flags := mkFlags true true true true.
+
 Definition hstep := (op * list str * list str)%type.   (* call, ids drawn from uuid4, iteration-order hint *)
-Fixpoint run_hist (sub : bool) (g : graph) (h : list hstep) : graph :=
+Fixpoint run_hist (sub : bool) (fl : flags) (g : graph) (h : list hstep) : graph :=
   match h with
   | [] => g
-  | (o, dr, hi) :: r => run_hist sub (fst (step sub g o dr hi)) r
+  | (o, dr, hi) :: r => run_hist sub fl (fst (step sub fl g o dr hi)) r
   end.
-Fixpoint pre_along (sub : bool) (g : graph) (h : list hstep) : bool :=
+Fixpoint pre_along (sub : bool) (fl : flags) (g : graph) (h : list hstep) : bool :=
   match h with
   | [] => true
-  | (o, dr, hi) :: r => op_pre g o && pre_along sub (fst (step sub g o dr hi)) r
+  | (o, dr, hi) :: r => op_pre g o && pre_along sub fl (fst (step sub fl g o dr hi)) r
   end.
